@@ -135,7 +135,7 @@ func checkHCLKeys(c *Ctx, rule string, pkgs []string, label string) {
 
 func runC15(c *Ctx) {
 	c.Rule("R15a", "format ⊇ parse: every schema.Type implementation constructed in a dialect's ParseType (and its package-local helpers) has a case in that dialect's FormatType", 25)
-	c.Rule("R15b", "HCL key agreement (all dialects + shared spec code): every constant attribute key written by the schema→spec direction is read by the spec→schema direction", 25)
+	c.Rule("R15b", "HCL key agreement (all dialects + shared spec code): every constant attribute key written by the schema→spec direction is read by the spec→schema direction", 12)
 	c.Rule("R15c", "type-attribute names declared for the registries camelise to a field of a schema.Type struct", 4)
 	c.Rule("R15d", "each dialect's TypeRegistry is built with its own ParseType and FormatType (WithParser / WithFormatter)", 6)
 
@@ -219,9 +219,9 @@ func runC15(c *Ctx) {
 	}
 
 	checkHCLKeys(c, "R15b", []string{pSpecutil, pSqlspec, pSqlite, pMysql, pPostgres, pHCL}, "hcl")
-	c.Rule("R15f", "sibling agreement per resource level: for each dialect and each pair (convertTable, tableSpec), (convertColumn, columnSpec), (convertIndex, indexSpec) every dialect-specific attribute key the converter itself reads (spec.Attr(\"k\") in its own body) is written by the marshaller (or its package-local helpers)", 6)
+	c.Rule("R15f", "sibling agreement per resource level: for each dialect and each pair (convertTable, tableSpec), (convertColumn, columnSpec), (convertIndex, indexSpec) every dialect-specific attribute key the converter itself reads (spec.Attr(\"k\") in its own body) is written by the marshaller (or its package-local helpers)", 4)
 	checkSiblingKeys(c)
-	c.Rule("R15e", "attribute guard independence: an optional HCL attribute written from field F of an object is not made conditional on a comparison of a different field G of the same object with a constant (each optional attribute is omitted only because of its own default)", 10)
+	c.Rule("R15e", "attribute guard independence: an optional HCL attribute written from field F of an object is not made conditional on a comparison of a different field G of the same object with a constant (each optional attribute is omitted only because of its own default)", 6)
 	checkAttrGuards(c)
 
 	// R15c
@@ -321,7 +321,7 @@ func runC15(c *Ctx) {
 }
 
 func runC03(c *Ctx) {
-	c.Rule("R03a", "HCL key agreement (sqlite + shared spec code): every constant attribute key written by the schema→spec direction is read by the spec→schema direction", 10)
+	c.Rule("R03a", "HCL key agreement (sqlite + shared spec code): every constant attribute key written by the schema→spec direction is read by the spec→schema direction", 5)
 	c.Rule("R03b", "SQL export is the dump-mode plan of the inspected realm: sqlInspect/fmtPlan plan with PlanModeDump the changes built from the inspected realm, one AddTable per table", 3)
 	c.Rule("R03c", "inspecting twice gives the same output as far as map order is concerned: no order-sensitive map iteration in the SQLite inspector, the spec marshaller and the inspect formatter (C20's lint scoped to them)", 1)
 
